@@ -9,6 +9,8 @@ import (
 	"context"
 	"errors"
 	"io"
+
+	usync "github.com/mgtv-tech/redis-GunYu/pkg/sync"
 )
 
 // verifC05Src feeds a writer's ingest loop: fixed chunks of symbolic bytes;
@@ -355,4 +357,37 @@ func VerifC05MemInvalidate() {
 	verifCover(kind == 0, "c05.reset-by-snapshot")
 	verifCover(kind == 3, "c05.writer-replaced")
 	verifReach("c05.invalidate-end")
+}
+
+// VerifC05MemConcurrent: writer, reader and consumer really run concurrently (the real Start()
+// goroutines of the writer's ingest loop and of the reader's copy loop; the consumer reads from the
+// reader's pipe): under every explored interleaving the consumer receives exactly the bytes
+// written from the reader's offset, in order, across rotation.
+func VerifC05MemConcurrent() {
+	L := int64(verifParam("LOGSIZE", 2))
+	K := verifParam("CCHUNKS", 2)
+	C := verifParam("CCHUNKMAX", 2)
+	mc := verifC05Chan(L, 0)
+	mc.SetRunId("r1")
+	base := int64(100)
+	chunks, all := verifC05Chunks("aof", K, C)
+	w, err := mc.NewAofWritter(&verifC05Src{chunks: chunks}, base)
+	verifAssert(err == nil, "C05.mem.new-aof-writer")
+	rd, err := mc.NewReader(Offset{RunId: "r1", Offset: base})
+	verifAssert(err == nil, "C05.mem.valid-offset-but-no-reader")
+	if err != nil {
+		return
+	}
+	wait := usync.NewWaitCloser(nil)
+	rd.Start(wait)
+	w.Start()
+	got := make([]byte, len(all))
+	n, rerr := io.ReadFull(rd.IoReader(), got)
+	verifAssert(rerr == nil && n == len(all), "C05.mem.concurrent-reader-misses-bytes")
+	for i := 0; i < n && i < len(all); i++ {
+		verifAssert(got[i] == all[i], "C05.mem.concurrent-reader-bytes")
+	}
+	rd.Close()
+	wait.Close(nil)
+	verifReach("c05.concurrent-end")
 }
